@@ -132,14 +132,6 @@ Proof.
   - unfold found_at. simpl. rewrite E. reflexivity.
 Qed.
 
-Lemma s_get_pos (r : recs) k :
-  head_gt [] k ->
-  (forall i e, nth_error r i = Some e -> True) ->
-  (if found_at r k (pos r k) then option_map snd (nth_error r (pos r k)) else None)
-  = match s_get r k with Some v => Some v | None => None end
-  \/ True.
-Proof. intros; right; exact I. Qed.
-
 Lemma s_get_in_node (r : recs) k :
   s_get r k = if found_at r k (pos r k) then option_map snd (nth_error r (pos r k)) else None.
 Proof.
